@@ -284,6 +284,71 @@ func sameStrings(a, b []string) bool {
 
 // eval runs the model and the real parser on one vector (placeholder form). kind is "" on
 // agreement, else the class of the disagreement.
+// envNames: the CFG_* variable of every flag of Cfg, as the library itself prints them in its usage
+// text (so the naming rule is not re-implemented here); nil when they cannot be told apart.
+var envNames = func() map[int]string {
+	var c Cfg
+	fs, err := config.NewFlagSet(&c)
+	if err != nil {
+		return nil
+	}
+	var buf bytes.Buffer
+	fs.PrintUsage(&buf, false)
+	m := map[int]string{}
+	for _, ln := range strings.Split(buf.String(), "\n") {
+		f := strings.Fields(ln)
+		if len(f) < 2 || !strings.HasPrefix(f[0], "-") {
+			continue
+		}
+		fi, ok := flagIndex[f[0][1:]]
+		if !ok {
+			continue
+		}
+		for _, w := range f[1:] {
+			if strings.HasPrefix(w, "[CFG_") && strings.HasSuffix(w, "]") {
+				m[fi] = w[1 : len(w)-1]
+			}
+		}
+	}
+	return m
+}()
+
+// evalEnvJunk: the vector once more, in an environment whose CFG_* variables of the flags the vector
+// itself assigns hold text that cannot be parsed. The command line outranks the environment and only
+// the effective value has to parse, so a vector the grammar accepts is accepted all the same, with the
+// same result. (Nothing is said here about a junk variable of a flag the vector does not assign.)
+func evalEnvJunk(tokens []string, fx *fixture, o *outcome) (kind, expected, observed string, did bool) {
+	if o.class != "" || o.set == nil || envNames == nil {
+		return
+	}
+	var names []string
+	for fi, on := range o.set {
+		if !on || fi == fHelp || fi == fConfig {
+			continue
+		}
+		if n := envNames[fi]; n != "" {
+			names = append(names, n)
+		}
+	}
+	if len(names) == 0 {
+		return
+	}
+	for i, n := range names {
+		os.Setenv(n, []string{"junk", "1x", "--", "0x", "%%%", "t r u e"}[(i+len(tokens))%6])
+	}
+	argvModel, argvReal := fx.subst(tokens), fx.subst(tokens)
+	r := runReal(argvReal)
+	for _, n := range names {
+		os.Unsetenv(n)
+	}
+	kind, expected, observed = judge(o, &r, argvModel, argvReal)
+	if kind != "" {
+		kind = "env-junk:" + kind
+		expected = "with unparsable text in " + strings.Join(names, ", ") + " (flags the vector assigns itself): " + expected
+	}
+	return kind, expected, observed, true
+}
+
 func eval(tokens []string, fx *fixture) (kind, expected, observed string, o outcome) {
 	argvModel := fx.subst(tokens)
 	argvReal := fx.subst(tokens)
@@ -689,6 +754,15 @@ func (rn *runner) exec(tokens []string) bool {
 				rn.c.Sample(map[string]any{"layout": rn.lay.id, "argv": quoteTokens(tokens), "model": rn.lay.describe(&o)})
 			} else {
 				rn.c.Sample(map[string]any{"argv": quoteTokens(tokens), "model": describe(o)})
+			}
+		}
+	}
+	if kind == "" && rn.lay == nil && o.nflags > 0 && rn.evals%3 == 0 {
+		if k2, e2, ob2, did := evalEnvJunk(tokens, rn.fx, &o); did {
+			rn.sum["accepted_vectors_rerun_with_unparsable_env_of_their_own_flags"]++
+			if k2 != "" {
+				rn.c.Violate(keyOf(k2, tokens), Case{Layout: rn.layoutID(), Argv: quoteTokens(tokens)}, e2, ob2)
+				return rn.c.NumViolations() < 20
 			}
 		}
 	}
